@@ -10,6 +10,7 @@ MODEL_TARGETS = ['theories/Model/Eval.vo']
 MODEL_NEEDS_IMPL = True
 SHARD = 60
 SIZES = {'quick': 700, 'thorough': 12000, 'search': 6000}
+SUBSTREAMS = ['c06_limits', 'c06_multitrip']
 RULE = ('cases: random worlds (3-6 locations, metric and non-metric asymmetric integer matrices, open/closed tours, finite and '
         'unbounded shift ends, all five vehicle cost rates), tours of 0-5 activities generated around the simulated arrival times '
         '(tight windows, waiting, occasionally infeasible), mixed static and dynamic (shipment) demand; candidate = single job '
